@@ -90,7 +90,9 @@ def replay(case):
                     else:
                         if normalize:
                             continue
-                        sol = ode.hod(A, x0, steps[0], len(steps), order=2 * cfg['m'], previous_value=prev if with_prev else None,
+                        # an odd order is documented to be rounded up to the next even one
+                        sol = ode.hod(A, x0, steps[0], len(steps), order=2 * cfg['m'] - (1 if len(steps) == 1 else 0),
+                                      previous_value=prev if with_prev else None,
                                       threshold=0, max_rank=200, normalize=0, progress=False)
                     res = check_trajectory(sol, x0, Ad, steps, sch, P, isl, normalize, with_prev, prev, dims)
                     for sig, msg in res:
